@@ -25,6 +25,7 @@ import (
 
 	"cosmossdk.io/collections"
 	sdkmath "cosmossdk.io/math"
+	govkeeper "cosmossdk.io/x/gov/keeper"
 	govv1 "cosmossdk.io/x/gov/types/v1"
 	stakingtypes "cosmossdk.io/x/staking/types"
 	sdk "github.com/cosmos/cosmos-sdk/types"
@@ -87,6 +88,7 @@ type gtHist struct {
 	names map[string]string // bech32 acc address or valoper address -> name
 	pid   uint64
 	nv    int
+	fn    govkeeper.CalculateVoteResultsAndVotingPowerFn
 }
 
 func (h *gtHist) name(addr string) string {
@@ -170,7 +172,12 @@ func (h *gtHist) direct(pre func(ctx sdk.Context) error) gtRes {
 		}); err != nil {
 			return err
 		}
-		fn := appgov.ProvideCalculateVoteResultsAndVotingPowerFn(c.App.AuthKeeper, c.App.StakingKeeper)
+		// ONE function value per history, as in the application (it is provided once at start-up and used for every tally):
+		// whatever a tally leaves behind in the closure would be seen by the next one
+		if h.fn == nil {
+			h.fn = appgov.ProvideCalculateVoteResultsAndVotingPowerFn(c.App.AuthKeeper, c.App.StakingKeeper)
+		}
+		fn := h.fn
 		tv, res, err := fn(ctx, *c.App.GovKeeper, h.pid, validators)
 		if err != nil {
 			return err
